@@ -40,15 +40,15 @@ func (notification *Notification) Unmarshal(b []byte) error {
 			return errors.Errorf("Notification: No sufficient bytes to decode next notification")
 		}
 		spiSize := b[1]
-		if len(b) < int(4+spiSize) {
+		if len(b) < 4+int(spiSize) {
 			return errors.Errorf("Notification: No sufficient bytes to get SPI according to the length specified in header")
 		}
 
 		notification.ProtocolID = b[0]
 		notification.NotifyMessageType = binary.BigEndian.Uint16(b[2:4])
 
-		notification.SPI = append(notification.SPI, b[4:4+spiSize]...)
-		notification.NotificationData = append(notification.NotificationData, b[4+spiSize:]...)
+		notification.SPI = append(notification.SPI, b[4:4+int(spiSize)]...)
+		notification.NotificationData = append(notification.NotificationData, b[4+int(spiSize):]...)
 	}
 
 	return nil
